@@ -98,6 +98,26 @@ func checkReentrant(r *core.Report, rule string, root *core.Func, what string) {
 				return true
 			})
 		}
+		// locals that point at package-level variables: st := &pkgVar
+		pkgAlias := map[types.Object]*types.Var{}
+		ast.Inspect(f.Body, func(n ast.Node) bool {
+			as, ok := n.(*ast.AssignStmt)
+			if !ok || len(as.Lhs) != len(as.Rhs) {
+				return true
+			}
+			for i, l := range as.Lhs {
+				id, ok := l.(*ast.Ident)
+				if !ok {
+					continue
+				}
+				if u, ok := core.Unparen(as.Rhs[i]).(*ast.UnaryExpr); ok && u.Op == token.AND {
+					if v, ok := core.ObjOf(info, u.X).(*types.Var); ok && v.Pkg() != nil && v.Parent() == v.Pkg().Scope() {
+						pkgAlias[info.ObjectOf(id)] = v
+					}
+				}
+			}
+			return true
+		})
 		locked := false
 		for _, c := range core.CallsIn(f.Body, false) {
 			nm := core.CalleeName(info, c)
@@ -120,6 +140,37 @@ func checkReentrant(r *core.Report, rule string, root *core.Func, what string) {
 						return true
 					}
 					for _, l := range s.Lhs {
+						// package-level state written on the lookup path is shared by all concurrent lookups
+						root := core.Unparen(l)
+						for {
+							switch x := root.(type) {
+							case *ast.IndexExpr:
+								root = core.Unparen(x.X)
+								continue
+							case *ast.SelectorExpr:
+								if _, isPkg := info.ObjectOf(x.Sel).(*types.Var); isPkg {
+									if id, ok := core.Unparen(x.X).(*ast.Ident); ok {
+										if _, isPkgName := info.ObjectOf(id).(*types.PkgName); isPkgName {
+											root = x.Sel
+											break
+										}
+									}
+								}
+								root = core.Unparen(x.X)
+								continue
+							case *ast.StarExpr:
+								root = core.Unparen(x.X)
+								continue
+							}
+							break
+						}
+						if id, ok := root.(*ast.Ident); ok && bad == "" {
+							if v, ok := info.ObjectOf(id).(*types.Var); ok && v.Pkg() != nil && v.Parent() == v.Pkg().Scope() {
+								bad, badPos = "writes the package-level variable "+v.Name(), s
+							} else if pv := pkgAlias[info.ObjectOf(id)]; pv != nil && !isPlainIdent(l) {
+								bad, badPos = "writes the package-level variable "+pv.Name()+" through "+id.Name, s
+							}
+						}
 						if _, plain := core.Unparen(l).(*ast.Ident); plain {
 							continue
 						}
@@ -321,4 +372,9 @@ func checkNoEscapingFieldAlias(r *core.Report, rule, pkgShort, typeName string) 
 	if n == 0 {
 		r.Undecided(rule, pkgShort+"#byte-returning-functions", "", "no exported function or closure returning bytes found in "+pkgShort)
 	}
+}
+
+func isPlainIdent(e ast.Expr) bool {
+	_, ok := core.Unparen(e).(*ast.Ident)
+	return ok
 }
